@@ -83,6 +83,16 @@ def configs(tier):
                         for a in A:
                             out.append({'cls': cls, 'center': list(c), 'inner_width': w, 'inner_height': h,
                                         'outer_width': w * fw, 'outer_height': h * fh, 'angle': a})
+    # integral sizes given as narrow numpy integer scalars (their squares do not fit the type)
+    for dt, (w, h) in (('int16', (200, 300)), ('uint8', (20, 16)), ('int8', (12, 100)), ('uint16', (300, 260))):
+        for c in C[:2]:
+            for a in A[:4]:
+                out.append({'cls': 'ellipse', 'center': list(c), 'width': w, 'height': h, 'angle': a, 'size_dtype': dt})
+                out.append({'cls': 'rectangle', 'center': list(c), 'width': w, 'height': h, 'angle': a, 'size_dtype': dt})
+                out.append({'cls': 'ellipseannulus', 'center': list(c), 'inner_width': w // 2, 'inner_height': h // 2, 'outer_width': w,
+                            'outer_height': h, 'angle': a, 'size_dtype': dt})
+            out.append({'cls': 'circle', 'center': list(c), 'radius': w, 'size_dtype': dt})
+            out.append({'cls': 'circleannulus', 'center': list(c), 'inner_radius': h // 2, 'outer_radius': max(w, h), 'size_dtype': dt})
     scales = [1.0, 2.0 ** -10, 2.0 ** 10] if tier == 'quick' else [1.0, 2.0 ** -10, 2.0 ** -3, 8.0, 2.0 ** 10, 2.0 ** 20]
     for name in K.POLYS:
         for s in scales:
